@@ -34,7 +34,7 @@ fn parse_edges(csv: &str) -> Vec<(String, String)> {
 
 pub fn check_case(ctx: &Ctx, st: &mut Stats, c: &Case, tag: &str) {
     st.evals += 1;
-    let dir = ctx.scratch.join(format!("c16-{}", tag));
+    let dir = ctx.fresh_dir(&format!("c16-{}", tag));
     let _ = std::fs::create_dir_all(&dir);
     let input = dir.join("graph.csv");
     let output = dir.join("out.txt");
@@ -189,8 +189,8 @@ fn job(ctx: &Ctx, job: usize, jobs: usize, thorough: bool) -> Stats {
     if thorough {
         graphs.extend(all_digraphs(4).into_iter().map(|g| (4, g)));
     } else {
-        // every 16th digraph on 4 vertices
-        graphs.extend(all_digraphs(4).into_iter().enumerate().filter(|(i, _)| i % 16 == 5).map(|(_, g)| (4, g)));
+        // every 4th digraph on 4 vertices
+        graphs.extend(all_digraphs(4).into_iter().enumerate().filter(|(i, _)| i % 4 == 1).map(|(_, g)| (4, g)));
     }
     for (_nv, g) in &graphs {
         for u in [false, true] {
@@ -208,7 +208,7 @@ fn job(ctx: &Ctx, job: usize, jobs: usize, thorough: bool) -> Stats {
         }
     }
     // random graphs on 5-6 vertices, with self-loops and both orientations
-    let iters = if thorough { 250 } else { 12 };
+    let iters = if thorough { 250 } else { 40 };
     for i in 0..iters {
         let nv = 5 + rng.usize(2);
         let dens = 1 + rng.below(4);
@@ -236,7 +236,7 @@ pub fn run(ctx: &Ctx) -> (Stats, Spec) {
     let jobs = 16;
     let parts = util::par_jobs(jobs, |j| job(ctx, j, jobs, thorough));
     let mut st = crate::report::merge_all(parts);
-    st.exhaustive.push(if thorough { "all 64 digraphs on 3 vertices and all 4096 on 4 vertices x {-u} x {-a}".into() } else { "all 64 digraphs on 3 vertices (and every 16th on 4 vertices) x {-u} x {-a}".into() });
+    st.exhaustive.push(if thorough { "all 64 digraphs on 3 vertices and all 4096 on 4 vertices x {-u} x {-a}".into() } else { "all 64 digraphs on 3 vertices (and every 4th on 4 vertices) x {-u} x {-a}".into() });
     // fixed: empty graph, complete graphs, one-directional edges, the adversarial name pair {x, v_x}
     let mut k = 0;
     for csv in ["", "a,b\n", "a,b\nb,a\n", "a,a\n", "a,b\nb,c\nc,a\n", "a,b\nb,a\nb,c\nc,b\na,c\nc,a\n", "a,v_a\n", "a,v_a\nv_a,a\n", "x,v_x\nv_x,y\ny,x\n", "v_1,v_2\nv_2,v_v_1\n"] {
@@ -248,7 +248,7 @@ pub fn run(ctx: &Ctx) -> (Stats, Spec) {
         }
     }
     let spec = Spec {
-        rule: "edge lists: every digraph on 3 vertices (4 vertices: every 16th [quick] / all [thorough]) x {-u} x {-a}, random graphs on 5-6 vertices with self-loops, duplicates, one-directional edges and shuffled rows, empty and complete graphs; vertex names plain, with ' _ digits, non-ASCII, and the pair {x, v_x}; input via file or stdin, output via stdout or file. The emitted text is parsed and evaluated by the reference; for EVERY subset of the vertices 'is a model' must equal 'is a (maximum) clique'. distinct = (edge set, flags); non-trivial = at least one edge and one non-adjacent pair.".into(),
+        rule: "edge lists: every digraph on 3 vertices (4 vertices: every 4th [quick] / all [thorough]) x {-u} x {-a}, random graphs on 5-6 vertices with self-loops, duplicates, one-directional edges and shuffled rows, empty and complete graphs; vertex names plain, with ' _ digits, non-ASCII, and the pair {x, v_x}; input via file or stdin, output via stdout or file. The emitted text is parsed and evaluated by the reference; for EVERY subset of the vertices 'is a model' must equal 'is a (maximum) clique'. distinct = (edge set, flags); non-trivial = at least one edge and one non-adjacent pair.".into(),
         assumptions: vec![
             "vertex names are identifiers that are not keywords of the formula language (as the statement says)".into(),
             "adjacency: with -u an edge in either direction; without it both directions must be present; self-loops are ignored".into(),
